@@ -151,8 +151,8 @@ theorem compile_pathOk (ps : Params) (top : Bool) : ∀ (e : Core) (tail : Bool)
       exact (pa.trans (pf.trans (p3.cast (by omega) rfl))).cast rfl (by simp [clen] <;> omega)
   | .callG g args, tail, fin, b, pre, post, hb, hs, hp => by
     subst hb
-    simp only [srcOk, Bool.and_eq_true, Bool.or_eq_true] at hs
-    obtain ⟨hg, hsa⟩ := hs
+    simp only [srcOk, Bool.and_eq_true, Bool.or_eq_true, decide_eq_true_eq] at hs
+    obtain ⟨⟨hg, hnn⟩, hsa⟩ := hs
     have hc1 : pre ++ compile tail pre.length fin (.callG g args) ++ post =
         pre ++ compileArgs false pre.length fin args ++ ([if tail then .CALLGLOBALTAIL g else .CALLGLOBAL g] ++
           [if tail then .TAILCALL args.length else .FUNC args.length] ++ post) := by
@@ -167,11 +167,34 @@ theorem compile_pathOk (ps : Params) (top : Bool) : ∀ (e : Core) (tail : Bool)
         · cases hg
         · exact Or.inl hg
         · exact Or.inr (by simpa using hg)
-      have p3 := PathOk.one hx (by rw [width_eq hx]; rfl : _ = 2) (iok_callg (ps := ps) hx hg')
+      have hx2 := code_at pre (compile false pre.length fin (.callG g args)) post (0 + clenL false args + 1)
+        (.FUNC args.length) (by find_ins)
+      have hw : ∀ n, ((pre ++ compile false pre.length fin (.callG g args) ++ post)[pre.length + (0 + clenL false args) + 1]? =
+          some (Instr.TAILCALL n) ∨ (pre ++ compile false pre.length fin (.callG g args) ++ post)[pre.length +
+          (0 + clenL false args) + 1]? = some (Instr.FUNC n)) → n ≤ ps.maxN := by
+        intro n hn
+        rw [Nat.add_assoc] at hn
+        rw [hx2] at hn
+        rcases hn with hn | hn
+        · cases hn
+        · simp only [Option.some.injEq, Instr.FUNC.injEq] at hn; omega
+      have p3 := PathOk.one hx (by rw [width_eq hx]; rfl : _ = 2) (iok_callg (ps := ps) hx hg' hw)
       exact (pa.trans (p3.cast (by omega) rfl)).cast rfl (by simp [clen] <;> omega)
     · have hx := code_at pre (compile true pre.length fin (.callG g args)) post (0 + clenL false args)
         (.CALLGLOBALTAIL g) (by find_ins)
-      have p3 : PathOk ps top _ _ _ := PathOk.one hx (by rw [width_eq hx]; rfl : _ = 2) (iok_plain hx rfl)
+      have hx2 := code_at pre (compile true pre.length fin (.callG g args)) post (0 + clenL false args + 1)
+        (.TAILCALL args.length) (by find_ins)
+      have hw : ∀ n, ((pre ++ compile true pre.length fin (.callG g args) ++ post)[pre.length + (0 + clenL false args) + 1]? =
+          some (Instr.TAILCALL n) ∨ (pre ++ compile true pre.length fin (.callG g args) ++ post)[pre.length +
+          (0 + clenL false args) + 1]? = some (Instr.FUNC n)) → n ≤ ps.maxN := by
+        intro n hn
+        rw [Nat.add_assoc] at hn
+        rw [hx2] at hn
+        rcases hn with hn | hn
+        · simp only [Option.some.injEq, Instr.TAILCALL.injEq] at hn; omega
+        · cases hn
+      have p3 : PathOk ps top _ _ _ := PathOk.one hx (by rw [width_eq hx]; rfl : _ = 2)
+        (iok_callgtail (ps := ps) hx hw)
       exact (pa.trans (p3.cast (by omega) rfl)).cast rfl (by simp [clen] <;> omega)
   | .selfTail args, tail, fin, b, pre, post, hb, hs, hp => by
     subst hb
@@ -241,11 +264,11 @@ theorem compile_pathOk (ps : Params) (top : Bool) : ∀ (e : Core) (tail : Bool)
       (hc3 ▸ hp3)
     rw [← hc3] at pe
     have pIf := PathOk.one hxif (by rw [width_eq hxif]; rfl : _ = 1)
-      (iok_if (ps := ps) (top := top) hxif (Or.inl hp3))
+      (iok_if (ps := ps) (top := top) hxif (Or.inl hp3) (by omega))
     have pJ : PathOk ps top (pre ++ compile tail pre.length fin (.ite c t e) ++ post) (pre.length + (0 + clen c + 1 + clen t)) (pre.length + (0 + clen c + 1 + clen t) + 1) := by
       rcases hxj2 with rfl | rfl
       · exact step_plain1 hxj rfl hwj
-      · exact PathOk.one hxj hwj (iok_jmp hxj (Or.inl (hp3.trans pe.path)))
+      · exact PathOk.one hxj hwj (iok_jmp hxj (Or.inl (hp3.trans pe.path)) (by omega))
     exact (pc.trans ((pIf.cast (by omega) rfl).trans ((pt.cast (by omega) rfl).trans
       ((pJ.cast (by omega) rfl).trans (pe.cast (by omega) rfl))))).cast rfl (by simp [clen] <;> omega)
   | .let_ off inits body, tail, fin, b, pre, post, hb, hs, hp => by
